@@ -4,33 +4,19 @@
 // Output: one line per script line:
 //   <lineno>|<logical>|<op>|<canonical id or ->|<live per find_session just before: 0/1>|<observation>
 // Real session ids (addresses) are renamed to canonical numbers by first appearance.
-#include "../common/rime_env.h"
+#include "../common/session_ops.h"
 #include <iostream>
 #include <map>
 #include <sstream>
 
 using namespace vh;
 
-static std::string esc(const char* s) {
-  if (!s) return "NULL";
-  std::string o = "\"";
-  for (const unsigned char* p = (const unsigned char*)s; *p; ++p) {
-    if (*p == '|' || *p == '\\' || *p == '"' || *p < 0x20) {
-      char b[8];
-      snprintf(b, sizeof b, "\\x%02x", *p);
-      o += b;
-    } else {
-      o += (char)*p;
-    }
-  }
-  return o + "\"";
-}
-
 int main(int argc, char** argv) {
   if (argc < 5) {
     fprintf(stderr, "usage: c16 <shared> <user> <staging> <script>\n");
     return 2;
   }
+  std::cout.setf(std::ios::unitbuf);  // a crash must not lose the lines already executed
   Env env;
   if (!env.start_with_staging(argv[1], argv[2], argv[3])) return 3;
   RimeApi* api = env.api;
@@ -100,112 +86,12 @@ int main(int argc, char** argv) {
       continue;
     }
     int live = api->find_session(id) ? 1 : 0;
-    if (op == "key") {
-      int code, mask;
-      ls >> code >> mask;
-      obs << "ret " << (api->process_key(id, code, mask) ? 1 : 0);
-    } else if (op == "simulate") {
-      std::string seq;
-      ls >> seq;
-      obs << "ret " << (api->simulate_key_sequence(id, seq.c_str()) ? 1 : 0);
-    } else if (op == "select") {
-      size_t i;
-      ls >> i;
-      obs << "ret " << (api->select_candidate(id, i) ? 1 : 0);
-    } else if (op == "select_on_page") {
-      size_t i;
-      ls >> i;
-      obs << "ret " << (api->select_candidate_on_current_page(id, i) ? 1 : 0);
-    } else if (op == "highlight") {
-      size_t i;
-      ls >> i;
-      obs << "ret " << (api->highlight_candidate(id, i) ? 1 : 0);
-    } else if (op == "page") {
-      int back;
-      ls >> back;
-      obs << "ret " << (api->change_page(id, back) ? 1 : 0);
-    } else if (op == "commit") {
-      obs << "ret " << (api->commit_composition(id) ? 1 : 0);
-    } else if (op == "clear") {
-      api->clear_composition(id);
-      obs << "unit";
-    } else if (op == "get_commit") {
-      RIME_STRUCT(RimeCommit, c);
-      Bool r = api->get_commit(id, &c);
-      obs << "ret " << (r ? 1 : 0) << " text " << esc(c.text);
-      api->free_commit(&c);
-    } else if (op == "get_context") {
-      RIME_STRUCT(RimeContext, c);
-      Bool r = api->get_context(id, &c);
-      obs << "ret " << (r ? 1 : 0);
-      if (r) {
-        obs << " comp " << c.composition.length << "," << c.composition.cursor_pos << "," << c.composition.sel_start
-            << "," << c.composition.sel_end << "," << esc(c.composition.preedit) << " menu " << c.menu.page_size
-            << "," << c.menu.page_no << "," << (c.menu.is_last_page ? 1 : 0) << "," << c.menu.highlighted_candidate_index
-            << "," << c.menu.num_candidates << "," << esc(c.menu.select_keys) << " [";
-        for (int i = 0; i < c.menu.num_candidates; ++i)
-          obs << esc(c.menu.candidates[i].text) << ":" << esc(c.menu.candidates[i].comment) << " ";
-        obs << "] preview " << esc(c.commit_text_preview);
-        api->free_context(&c);
-      }
-    } else if (op == "get_status") {
-      RIME_STRUCT(RimeStatus, st);
-      Bool r = api->get_status(id, &st);
-      obs << "ret " << (r ? 1 : 0);
-      if (r) {
-        obs << " " << esc(st.schema_id) << " " << esc(st.schema_name) << " flags " << !!st.is_disabled << !!st.is_composing
-            << !!st.is_ascii_mode << !!st.is_full_shape << !!st.is_simplified << !!st.is_traditional << !!st.is_ascii_punct;
-        api->free_status(&st);
-      }
-    } else if (op == "set_option") {
-      std::string name;
-      int v;
-      ls >> name >> v;
-      api->set_option(id, name.c_str(), v);
-      obs << "unit";
-    } else if (op == "get_option") {
-      std::string name;
-      ls >> name;
-      obs << "ret " << (api->get_option(id, name.c_str()) ? 1 : 0);
-    } else if (op == "set_property") {
-      std::string name, v;
-      ls >> name >> v;
-      api->set_property(id, name.c_str(), v.c_str());
-      obs << "unit";
-    } else if (op == "get_property") {
-      std::string name;
-      ls >> name;
-      char buf[256];
-      memset(buf, 0, sizeof buf);
-      Bool r = api->get_property(id, name.c_str(), buf, sizeof buf);
-      obs << "ret " << (r ? 1 : 0) << " " << esc(r ? buf : nullptr);
-    } else if (op == "select_schema") {
-      std::string sid;
-      ls >> sid;
-      obs << "ret " << (api->select_schema(id, sid.c_str()) ? 1 : 0);
-    } else if (op == "get_schema") {
-      char buf[256];
-      memset(buf, 0, sizeof buf);
-      Bool r = api->get_current_schema(id, buf, sizeof buf);
-      obs << "ret " << (r ? 1 : 0) << " " << esc(r ? buf : nullptr);
-    } else if (op == "set_input") {
-      std::string v;
-      ls >> v;
-      obs << "ret " << (api->set_input(id, v.c_str()) ? 1 : 0);
-    } else if (op == "get_input") {
-      obs << esc(api->get_input(id)) << " caret " << api->get_caret_pos(id);
-    } else if (op == "set_caret") {
-      size_t p;
-      ls >> p;
-      api->set_caret_pos(id, p);
-      obs << "unit";
-    } else {
-      obs << "BADOP";
-    }
+    if (!exec_op(api, id, op, ls, obs)) obs << "BADOP";
     std::cout << lineno << "|" << lg << "|" << op << "|" << k << "|" << live << "|" << obs.str() << "\n";
   }
   std::cout.flush();
   api->cleanup_all_sessions();
   env.stop();
+  std::cout << "DONE" << std::endl;
   return 0;
 }
